@@ -46,6 +46,8 @@ func scenarios(tier string) []vlib.Scenario {
 	// Conn.Close during an outage whose redials all fail (broker unreachable): must return within its context
 	out = append(out, vlib.Scenario{Name: params{"closeoutage", 0, 0}.name(), P: params{"closeoutage", 0, 0}})
 	out = append(out, vlib.Scenario{Name: params{"closeoutage", 0, 1}.name(), P: params{"closeoutage", 0, 1}})
+	// a downstream whose close request was disturbed keeps receiving chunks nobody reads (more than the queues hold)
+	out = append(out, vlib.Scenario{Name: params{"downclose-flood", 1, 0}.name(), P: params{"downclose-flood", 1, 0}})
 	// Conn.Close (and an unrelated call) while another call's request stays unanswered
 	for _, a := range []string{"closepending-openup", "closepending-meta", "closepending-call"} {
 		out = append(out, vlib.Scenario{Name: params{a, 0, 0}.name(), P: params{a, 0, 0}})
@@ -115,7 +117,7 @@ func (w *world) eligible(m message.Message) bool {
 	case *message.UpstreamCloseRequest:
 		return w.p.API == "upclose"
 	case *message.DownstreamCloseRequest:
-		return w.p.API == "downclose"
+		return w.p.API == "downclose" || w.p.API == "downclose-flood"
 	case *message.DownstreamChunkAck:
 		return w.p.API == "downclose" || w.p.API == "read"
 	case *message.UpstreamMetadata:
@@ -264,12 +266,17 @@ func (w *world) main() {
 	w.Phase = "setup"
 	api := w.p.API
 	needUp := api == "writeflush" || api == "upclose" || api == "writelate"
-	needDown := api == "read" || api == "readmeta" || api == "downclose"
+	needDown := api == "read" || api == "readmeta" || api == "downclose" || api == "downclose-flood"
 	if needUp && api == "writelate" {
 		// an ack timeout is configured: an acknowledgement may arrive after its waiter has given up
 		w.up, _ = w.OpenUp(sctx, "u0", iscp.WithUpstreamFlushPolicyNone(), iscp.WithUpstreamQoS(message.QoSReliable), iscp.WithUpstreamCloseTimeout(3*time.Second), iscp.WithUpstreamAckTimeout(time.Second))
 	} else if needUp {
-		w.up, _ = w.OpenUp(sctx, "u0", iscp.WithUpstreamFlushPolicyNone(), iscp.WithUpstreamQoS(message.QoSReliable), iscp.WithUpstreamCloseTimeout(3*time.Second))
+		// the close timeout is shorter or longer than the context the Close call gets (5 s): whichever ends first governs
+		ct := 3 * time.Second
+		if api == "upclose" && vsched.Choose("close-timeout-longer-than-context", 2) == 1 {
+			ct = 20 * time.Second
+		}
+		w.up, _ = w.OpenUp(sctx, "u0", iscp.WithUpstreamFlushPolicyNone(), iscp.WithUpstreamQoS(message.QoSReliable), iscp.WithUpstreamCloseTimeout(ct))
 	}
 	if needDown {
 		w.down, _ = w.OpenDown(sctx, "d0", kit.Filter("src"))
@@ -400,6 +407,17 @@ func (w *world) main() {
 		})
 	case "upclose":
 		w.timed("Upstream.Close", callTimeout, false, func(ctx context.Context) error { return w.up.U.Close(ctx) })
+	case "downclose-flood":
+		w.timed("Downstream.Close", callTimeout, false, func(ctx context.Context) error { return w.down.D.Close(ctx) })
+		if c := w.B.Live(); c != nil && len(w.B.Downs) > 0 {
+			for i := 0; i < 1100; i++ {
+				w.B.Send(c, chunkFor(w.B.Downs[0].Alias, fmt.Sprintf("flood-%d", i)))
+				if i%128 == 127 {
+					vsched.Quiesce()
+				}
+			}
+			vsched.Quiesce()
+		}
 	case "downclose":
 		w.timed("Downstream.Close", callTimeout, false, func(ctx context.Context) error { return w.down.D.Close(ctx) })
 	case "connclose":
